@@ -1253,8 +1253,10 @@ impl<'a> CompilerState<'a> {
                                 var_type = match var_type {
                                     VariableType::Char => VariableType::CharPtr,
                                     _ => {
-                                        return Err(self
-                                            .syntax_error("Type too complex not supported", start))
+                                        return Err(self.syntax_error(
+                                            "Type too complex not supported",
+                                            p.as_span().start(),
+                                        ))
                                     }
                                 }
                             }
@@ -1776,7 +1778,7 @@ impl<'a> CompilerState<'a> {
                                             _ => {
                                                 return Err(self.syntax_error(
                                                     "Type too complex not supported",
-                                                    start,
+                                                    p.as_span().start(),
                                                 ))
                                             }
                                         }
@@ -2103,7 +2105,7 @@ impl<'a> CompilerState<'a> {
                                         _ => {
                                             return Err(self.syntax_error(
                                                 "Type too complex not supported",
-                                                start,
+                                                pair.as_span().start(),
                                             ))
                                         }
                                     }
